@@ -26,12 +26,12 @@ EXHAUSTIVE = {"quick": "all 36 tables over PIDs {5,7} x ppid in {5,7,unlisted 3}
 CASE_TIMEOUT = 30
 SHARD = 120
 
-# model parameters: which of the proposed repairs (notes/fixes/C05-*.diff) are in /repo.  All False = code as it is.
-FIXES = {"skip_self": False, "parents_seen": False, "parent_reuse": False}
-# to try the check against a copy of /repo that carries some of the repairs:  C05_FIXES=skip_self,parents_seen VERIF_REPO=<copy> ./vcheck C05 quick
-# (when a repair is committed to /repo, set its flag to True above; the *_patched theorems then are the ones that apply)
-for _k in filter(None, os.environ.get("C05_FIXES", "").split(",")):
-    FIXES[_k] = True
+# model parameters: the three repairs found with this check are in /repo (6afb079 skip_self, 3959fba parent_reuse, e202d3b
+# parents_seen).  All True = the code as it is now.  C05_OLD=skip_self,... evaluates the model of the code WITHOUT a repair
+# (only useful to replay the old defects against a reverted copy:  C05_OLD=skip_self VERIF_REPO=<copy> ./vcheck C05 quick).
+FIXES = {"skip_self": True, "parents_seen": True, "parent_reuse": True}
+for _k in filter(None, os.environ.get("C05_OLD", "").split(",")):
+    FIXES[_k] = False
 
 OPS = ["children", "children_rec", "parent", "parents"]
 HANG_S = 0.4      # guard for a call the model predicts not to terminate
